@@ -16,7 +16,7 @@ func TestVerif(t *testing.T) {
 		ID:    "C18",
 		Level: "model_checking",
 		Rule: "round trip: every credential in {\"\", u, p:q:r, ü, <&>, 64 bytes}^4 (username, password, refresh token, access token; a username with a colon must be refused without touching the file or else round-trip) x 4 address forms " +
-			"(h, h:5000, https://h/v1/, http://h) x 13 pre-existing documents (absent, absent in a missing directory, {}, null, unknown top-level keys of every JSON type, auths entries with unknown fields, credsStore/credHelpers, " +
+			"(h, h:5000, https://h/v1/, http://h) x 14 pre-existing documents (a config path that is a relative symbolic link to the file holding the document, absent, absent in a missing directory, {}, null, unknown top-level keys of every JSON type, auths entries with unknown fields, credsStore/credHelpers, " +
 			"legacy username/password entries under URL keys, auth fields that are not base64(user:password), pretty-printed 0644 file, empty credsStore, auths:null, null entry): Put, Get, compare file with model, reload + Get, Delete, compare. " +
 			"histories: every history of 1..4 (thorough 1..5) operations over {Put a c0, Put a c1, Put b c0, Put b c2, Get a, Get b, Delete a, Delete b, Put a colon-username} for 4 address pairs x every document; " +
 			"every answer is compared with a JSON-document model (Get = what was put / what the docker format says a pre-existing entry means; Delete removes that key only); after the last operation the file must be one complete JSON object equal to the model " +
@@ -58,6 +58,7 @@ type doc struct {
 	text   string
 	mode   os.FileMode
 	rich   bool // has other keys or entries to preserve
+	link   bool // the config path is a relative symbolic link to the file holding the document (a dotfiles manager's layout)
 }
 
 func docs() []*doc {
@@ -86,6 +87,8 @@ func docs() []*doc {
 			text: `{"credsStore":"","auths":{"other.io":{"auth":"` + b64("ou:op") + `"}}}`},
 		{name: "auths-null", rich: true, mode: 0600, text: `{"auths":null,"psFormat":"table"}`},
 		{name: "entry-null", rich: true, mode: 0600, text: `{"auths":{"other.io":null,"x.io":{}}}`},
+		{name: "symlinked", rich: true, mode: 0600, link: true,
+			text: `{"auths":{"other.io":{"auth":"` + b64("ou:op") + `"},"h":{"auth":"` + b64("old:pw") + `"}},"experimental":"enabled"}`},
 	}
 }
 
@@ -97,10 +100,18 @@ func place(d *doc) (string, string) {
 		p = filepath.Join(dir, "sub", "dir", "config.json")
 	}
 	if !d.absent {
-		if err := os.WriteFile(p, []byte(d.text), d.mode); err != nil {
+		target := p
+		if d.link {
+			// config.json -> real.json, a relative link; the process's working directory is elsewhere
+			target = filepath.Join(dir, "real.json")
+			if err := os.Symlink("real.json", p); err != nil {
+				panic(err)
+			}
+		}
+		if err := os.WriteFile(target, []byte(d.text), d.mode); err != nil {
 			panic(err)
 		}
-		if err := os.Chmod(p, d.mode); err != nil {
+		if err := os.Chmod(target, d.mode); err != nil {
 			panic(err)
 		}
 	}
